@@ -1,6 +1,7 @@
 SPECIFICATION FairSpec
 CONSTANTS
   Anns = {"both", "size", "hash", "none"}
+  Devs = {"all"}
   Sizes = {0, 1, 2, 3}
   MaxFaults = 1
   FaultKinds = {"Flip", "Drop", "Dup", "Swap", "Cut"}
